@@ -22,7 +22,7 @@ SPEC_FUNCS = {
     "log_pos", "yielded", "exists_event", "all_events", "isinstance_",
     "truthy", "mem", "count_held", "seq", "select", "glob0", "obj", "strip",
     "split", "join", "cfg", "reaches", "no_event_between", "log_len", "the",
-    "split_ws", "as_", "tail", "has_loop", "ordered", "count_events", "pre", "app_call", "dynattr", "seq1", "prefix_of", "unbox", "is_bound", "obj_id", "cls_is", "cls_id_is", "no_lock_held", "has_dynattr",
+    "split_ws", "as_", "tail", "has_loop", "ordered", "count_events", "pre", "app_call", "dynattr", "seq1", "prefix_of", "unbox", "is_bound", "obj_id", "cls_is", "cls_id_is", "no_lock_held", "has_dynattr", "local_or",
 }
 
 
@@ -273,6 +273,16 @@ class SpecMixin:
             finally:
                 ctl.log_start = saved[0]
                 st.log_opaque = saved[1]
+        if name == "local_or":
+            # local_or('name', default): the value of a local variable of the function under verification when it exists and is bound, else the default
+            # (lets an invariant mention a helper variable without turning its absence into an engine error)
+            nm = cstr(a[0])
+            fr = st.frame
+            while fr is not None:
+                if nm in fr.vars and fr.vars[nm] is not None:
+                    return fr.vars[nm]
+                fr = st.frames.get(fr.parent) if fr.parent else None
+            return val(a[1])
         if name == "has_loop":
             start0 = getattr(ctl, "log_start", 0)
             return VBool(any(e_.tag.startswith("loop:") for e_ in st.log[start0:]))
